@@ -1,4 +1,5 @@
 """C12 bounded native harness: inventory sums are homomorphic; the running balance is the prefix sum."""
+import datetime
 import itertools
 
 from beancount.core import data, position, inventory, convert, prices
@@ -124,6 +125,58 @@ def check_ledger(res, name, src):
         res.violation('h12:balance-with-nested-scan', 'balance is added once per row however many times the targets reference it (another scan evaluated in between)', {'ledger': name, 'query': q}, bad, 'prefix sums')
 
 
+def check_dated_and_null(res, name, src):
+    """dated valuation commutes with sum like the undated one; the sum of a group without non-NULL values is the empty inventory"""
+    entries, _, options = ledger.load(src)
+    conn = ledger.connect(src)
+    pm = prices.build_price_map(entries)
+    posts = [(e, p) for e in entries if isinstance(e, data.Transaction) for p in e.postings]
+    total = inv_of(position.Position(p.units, p.cost) for e, p in posts)
+    price_dates = sorted({e.date for e in entries if isinstance(e, data.Price)})
+    probes = [d for pd in price_dates for d in (pd - datetime.timedelta(days=1), pd, pd + datetime.timedelta(days=5))][:9]
+    for d in probes:
+        res.case((name, 'value-dated', d.isoformat()))
+        a = conn.execute(f'SELECT value(sum(position), {d.isoformat()}) FROM #postings').fetchall()
+        b = conn.execute(f'SELECT sum(value(position, {d.isoformat()})) FROM #postings').fetchall()
+        want = total.reduce(convert.get_value, pm, d)
+        av, bv = (a[0][0] if a else inventory.Inventory()), (b[0][0] if b else inventory.Inventory())
+        if av != bv or av != want:
+            res.violation(f'h12:hom:value-dated:{d.isoformat()}', 'value(sum(x), date) equals sum(value(x, date)) and the Beancount valuation at that date', {'ledger': name, 'date': d.isoformat()}, (av, bv), want)
+    # groups in which the summed expression is NULL on every row
+    for q, what in [("SELECT account, sum(price) FROM #postings GROUP BY account", 'price'), ("SELECT account, sum(cost(position)), sum(price) FROM #postings WHERE price IS NULL GROUP BY account", 'price'),
+                    ("SELECT sum(price), count(price) FROM #postings WHERE price IS NULL", 'price')]:
+        res.case((name, 'sum-null-group', q))
+        rows = conn.execute(q).fetchall()
+        bad = [tuple(r) for r in rows if any(v is None for v in r[1 if 'GROUP' in q else 0:])]
+        if bad:
+            res.violation('h12:sum-null-group:' + q[:60], 'the sum over a group without non-NULL values is the empty inventory (the neutral element), never NULL', {'ledger': name, 'query': q}, bad[:2], 'empty inventory')
+
+
+def check_synthetic(res):
+    """recurring transactions built programmatically share their postings (entry._replace(date=...)); equal postings that follow
+    each other in a selection are still separate postings: the running balance is the prefix sum, its last value the sum"""
+    import beanquery
+    entries, errors, options = ledger.load(ledger.LEDGER_A)
+    base = next(e for e in entries if isinstance(e, data.Transaction) and e.narration == 'apples')
+    extra = [base._replace(date=base.date + datetime.timedelta(days=30 * k), meta=dict(base.meta, lineno=9000 + k)) for k in (1, 2, 3)]
+    allentries = data.sorted(list(entries) + extra)
+    conn = beanquery.connect('beancount:', entries=allentries, errors=[], options=options)
+    for where in ("account ~ 'Expenses:Food$'", "narration = 'apples'", None):
+        res.case(('synthetic', 'balance', where))
+        w = f' WHERE {where}' if where else ''
+        rows = conn.execute(f'SELECT position, balance FROM #postings{w}').fetchall()
+        run, ok = inventory.Inventory(), True
+        for pos, bal in rows:
+            run.add_position(pos)
+            if bal != run:
+                ok = False
+                break
+        tot = conn.execute(f'SELECT sum(position) FROM #postings{w}').fetchall()
+        if not ok or (rows and tot and rows[-1][1] != tot[0][0]):
+            res.violation(f'h12:synthetic:balance:{where}', 'the running balance is the prefix sum of the selected postings, its last value the sum (postings equal by value are separate postings)',
+                          {'ledger': 'A + a transaction repeated with shared postings', 'where': where}, (rows[-1][1] if rows else None), (tot[0][0] if tot else None))
+
+
 def check_inventory_columns(res, name, src):
     """sum() over an inventory-typed column (subquery output, user table): accumulators never alias row data"""
     conn = ledger.connect(src)
@@ -160,6 +213,9 @@ def run(tier, seed):
     check_ledger(res, 'B', ledger.LEDGER_B)
     check_inventory_columns(res, 'A', ledger.LEDGER_A)
     check_inventory_columns(res, 'B', ledger.LEDGER_B)
+    check_dated_and_null(res, 'A', ledger.LEDGER_A)
+    check_dated_and_null(res, 'B', ledger.LEDGER_B)
+    check_synthetic(res)
     return res.asdict()
 
 
